@@ -116,9 +116,10 @@ type inlCand struct {
 	pkg  *packages.Package
 	file *ast.File
 	// local closure `f := func(…) … { … }` that is only ever called directly
-	lit  *ast.FuncLit
-	v    *types.Var
-	decl *ast.AssignStmt
+	lit       *ast.FuncLit
+	v         *types.Var
+	decl      *ast.AssignStmt
+	blankUses int
 	// properties
 	hasDefer, hasRecover bool
 	callsCand            map[*types.Func]bool
@@ -368,6 +369,12 @@ func (in *inliner) closureCandidates() map[*types.Var]*inlCand {
 				}
 				call, ok := parent[id].(*ast.CallExpr)
 				if !ok || call.Fun != ast.Expr(id) {
+					if as, isAs := parent[id].(*ast.AssignStmt); isAs && as.Tok == token.ASSIGN && len(as.Lhs) == 1 && len(as.Rhs) == 1 && as.Rhs[0] == ast.Expr(id) {
+						if l, ok := as.Lhs[0].(*ast.Ident); ok && l.Name == "_" {
+							out[v].blankUses++ // `_ = f`, left by an earlier round
+							continue
+						}
+					}
 					if parent[id] != nil { // an identifier of this file
 						delete(out, v)
 					}
@@ -559,7 +566,7 @@ func (in *inliner) round() (map[string][]textEdit, bool) {
 	}
 	for v, c := range clos {
 		key := "closure " + v.Name() + "@" + in.w.Pos(c.decl.Pos())
-		if closUses[v] == 0 && in.inlined[key] > 0 {
+		if closUses[v]-c.blankUses == 0 && in.inlined[key] > 0 {
 			file, a := in.rawOff(c.decl.Pos())
 			_, b := in.rawOff(c.decl.End())
 			src := in.src(file)
